@@ -5,18 +5,21 @@
    ContractionTree.compressed_contract_stats), tied to /repo by harness/props/c20.py, which
    compares every tracker field and the whole hypergraph after every step.
 
-   NOT proved here (judged on every run by the oracle of the check instead, on all generated
-   networks x trees x orders x compress_late, against an independent cost evaluator):
-   * uncapped_flops_eq_exact / uncapped_write_eq_exact_plus_inputs / uncapped_max_eq_largest_tensor:
-     they need a simulation between the hypergraph with merged multi-edges and the tree
-     (a merged edge stands for the set of original indices, with the product of their sizes);
-     the first one is moreover FALSE of the faithful model when an index lives on one tensor only
-     and is not an output (finding compressed-flops-dangling-index, see the Example below);
-   * monotonicity of the tracker's max_size / write follows from the pointwise theorem below by
-     a routine induction that is not written out; for peak_size it additionally needs the
-     invariant total_size = sum of all node sizes (the neighbourhood bookkeeping), not proved. *)
+   The three "uncapped = exact" statements are proved below in the form: the tracker's flops,
+   write and max are the sums / maximum of the tree rule's figures (Net.v node_flops / node_size)
+   over the trees the run builds, one per step (run_trees: the tree of a step is Node ti tj for
+   the two live nodes the traversal names).  The check evaluates, for every uncapped run it
+   compares, that these trees have exactly the leaf sets the real traversal lists, so the sums
+   are the sums over the nodes of the user's tree.  Without the no-dangling hypothesis the flops
+   statement is FALSE of the faithful model (finding compressed-flops-dangling-index, see the
+   Example at the end).
+   Hypotheses that appear below and how they are met: `forall t, In t (inputs n) -> NoDup t` is
+   "no index repeated inside a tensor" (the property's "ordinary network"); `ids_ok chi late n
+   order = true` says that at every step the two operands named by the traversal are two distinct
+   live nodes -- it is evaluated inside Coq for every run the check compares. *)
 From Coq Require Import Lia Permutation.
-From Ctg Require Import Base Net HGraph Compressed BaseFacts NetFacts CompressedFacts.
+From Ctg Require Import Base Net HGraph Compressed BaseFacts NetFacts HGraphFacts CompressedFacts CompressedPeakFacts
+                        HGraphTreeFacts CompressedExactFacts.
 
 (* which edges are merged / which nodes exist / which identifiers are handed out never depends
    on sizes or on the cap: runs with any two caps stay in lock-step after every prefix *)
@@ -29,11 +32,39 @@ Print Assumptions C20_structure_independent_of_chi.
 (* capped <= less capped, pointwise: same structure and every edge size of the run with the
    smaller cap is at most that of the run with the larger cap (in particular the uncapped
    one), after any traversal prefix, for both compress_late values *)
-Theorem C20_capped_le_uncapped_pointwise_partial : forall chi1 chi2 late n order,
+Theorem C20_capped_le_uncapped_pointwise : forall chi1 chi2 late n order,
   (0 <= chi1 <= chi2)%Z -> (forall e, (0 <= zget e (szd n))%Z) ->
   sz_le (cs_g (ccs_run chi1 late n order)) (cs_g (ccs_run chi2 late n order)).
 Proof. exact run_mono. Qed.
-Print Assumptions C20_capped_le_uncapped_pointwise_partial.
+Print Assumptions C20_capped_le_uncapped_pointwise.
+
+(* capped_le_uncapped at the level of the tracker: the estimated largest tensor and the
+   estimated write of the run with the smaller cap never exceed those of the run with the
+   larger cap (in particular the uncapped one), for every network, traversal, compress_late *)
+Theorem C20_capped_le_uncapped_max_write : forall chi1 chi2 late n order,
+  (0 <= chi1 <= chi2)%Z -> (forall e, (0 <= zget e (szd n))%Z) ->
+  (t_max (cs_tr (ccs_run chi1 late n order)) <= t_max (cs_tr (ccs_run chi2 late n order)))%Z /\
+  (t_write (cs_tr (ccs_run chi1 late n order)) <= t_write (cs_tr (ccs_run chi2 late n order)))%Z.
+Proof. exact run_mono_max_write. Qed.
+Print Assumptions C20_capped_le_uncapped_max_write.
+
+(* the tracker's bookkeeping is exact: after every prefix of the traversal total_size is the
+   sum of the sizes of all tensors currently alive (the neighbourhood differences taken around
+   every compress account for every size that changes) *)
+Theorem C20_total_size_is_sum_of_node_sizes : forall chi late n order,
+  (forall t, In t (inputs n) -> NoDup t) -> ids_ok chi late n order = true ->
+  wf_hg (cs_g (ccs_run chi late n order)) /\
+  t_total (cs_tr (ccs_run chi late n order)) = total (cs_g (ccs_run chi late n order)).
+Proof. exact run_total. Qed.
+Print Assumptions C20_total_size_is_sum_of_node_sizes.
+
+(* ... hence peak_size is monotone in the cap as well *)
+Theorem C20_capped_le_uncapped_peak : forall chi1 chi2 late n order,
+  (0 <= chi1 <= chi2)%Z -> (forall e, (0 <= zget e (szd n))%Z) ->
+  (forall t, In t (inputs n) -> NoDup t) -> ids_ok chi1 late n order = true ->
+  (t_peak (cs_tr (ccs_run chi1 late n order)) <= t_peak (cs_tr (ccs_run chi2 late n order)))%Z.
+Proof. exact run_mono_peak. Qed.
+Print Assumptions C20_capped_le_uncapped_peak.
 
 (* ... hence every tensor (node) is at most as large *)
 Theorem C20_node_sizes_monotone : forall g1 g2 i, sz_le g1 g2 ->
@@ -46,6 +77,48 @@ Theorem C20_compress_monotone : forall chi1 chi2 edges g1 g2, (0 <= chi1 <= chi2
   sz_le (hg_compress chi1 edges g1) (hg_compress chi2 edges g2).
 Proof. exact compress_mono. Qed.
 Print Assumptions C20_compress_monotone.
+
+(* uncapped_flops_eq_exact / uncapped_write_eq_exact_plus_inputs / uncapped_max_eq_largest_tensor:
+   for a network without a repeated index inside a tensor (first hypothesis) and without an index
+   that lives on a single tensor and is not an output (nodangling), all dimensions >= 1, and a cap
+   at least the product of all dimensions (so that no merged bond is ever truncated), for any
+   traversal whose steps name two distinct live nodes (ids_ok) and both compress_late values:
+     flops = sum of the exact flops of the contractions performed,
+     write = total size of the inputs + sum of the exact sizes of the tensors produced,
+     max   = max(largest input, largest tensor produced).
+   The invariant behind it (Sim): every merged multi-edge stands for a duplicate-free set of
+   original indices, disjoint from all others, with the product of their sizes; the indices a
+   live node represents are exactly the tree's legs of its subtree. *)
+Theorem C20_uncapped_exact_steps : forall n, (forall t, In t (inputs n) -> NoDup t) ->
+  forall chi late order, nodangling n ->
+  (forall x, (1 <= zget x (szd n))%Z) -> (size_of (szd n) (universe n) <= chi)%Z ->
+  ids_ok chi late n order = true ->
+  let ts := run_trees chi late (ccs_init n) (leaf_forest n) order in
+  let t := cs_tr (ccs_run chi late n order) in
+  length ts = length order /\
+  t_flops t = sum_flops_of n ts /\
+  t_write t = (zsum (input_sizes n) + sum_sizes_of n ts)%Z /\
+  t_max t = max_sizes_of n ts (zmax_list (input_sizes n) 0%Z).
+Proof. exact uncapped_exact. Qed.
+Print Assumptions C20_uncapped_exact_steps.
+
+(* the two operations that carry the invariant *)
+Theorem C20_contract_keeps_simulation : forall n g F rep i j ti tj, Sim n g F rep -> i <> j ->
+  In (i, ti) F -> In (j, tj) F ->
+  let g' := fst (hg_contract i j g) in
+  let k := snd (hg_contract i j g) in
+  k = hnext g /\ Sim n g' ((k, Node ti tj) :: del_tree j (del_tree i F)) rep /\
+  contract_pair_cost g i j = node_flops n [] (Node ti tj) /\
+  hg_node_size g' k = node_size n [] false (Node ti tj).
+Proof. exact contract_sim. Qed.
+Print Assumptions C20_contract_keeps_simulation.
+
+Theorem C20_compress_keeps_simulation : forall n chi edges g F rep, Sim n g F rep ->
+  (forall e, In e edges -> alive g e) ->
+  (forall x, (1 <= zget x (szd n))%Z) -> (size_of (szd n) (universe n) <= chi)%Z ->
+  Sim n (hg_compress chi edges g) F (rep_after (map snd (incidences g (unique edges))) rep).
+Proof. exact compress_sim. Qed.
+Print Assumptions C20_compress_keeps_simulation.
 
 (* what one step adds to the tracker: flops += contraction cost + compression cost, write +=
    size of the new tensor, max = max(max, new tensor), peak = max(peak, total after contract) *)
@@ -88,6 +161,27 @@ Proof.
   cbn zeta. split.
   { intros e. do 4 (destruct e as [|e]; [cbn; lia|]). cbn. lia. }
   vm_compute. repeat split; reflexivity.
+Qed.
+
+Example C20_uncapped_nonvacuous :
+  let n := mkNet [[0; 1; 2]; [1; 2; 3]; [3; 0]] [] [(0, 2%Z); (1, 3%Z); (2, 2%Z); (3, 4%Z)] in
+  let t := Node (Node (Leaf 0) (Leaf 1)) (Leaf 2) in
+  (forall t0, In t0 (inputs n) -> NoDup t0) /\ nodangling n /\ (forall x, (1 <= zget x (szd n))%Z) /\
+  (size_of (szd n) (universe n) <= 100)%Z /\ ids_ok 100 false n (plr_of t) = true /\
+  run_trees 100 false (ccs_init n) (leaf_forest n) (plr_of t) = post_sub t /\
+  sum_flops_of n (post_sub t) = total_flops n [] t /\ sum_flops_of n (post_sub t) = 56%Z.
+Proof.
+  cbn zeta. split.
+  { intros t0 [<-|[<-|[<-|[]]]]; repeat constructor; cbn; intuition lia. }
+  split.
+  { intros m e He. destruct m as [|[|[|m]]]; cbn in He.
+    - destruct He as [<-|[<-|[<-|[]]]]; vm_compute; lia.
+    - destruct He as [<-|[<-|[<-|[]]]]; vm_compute; lia.
+    - destruct He as [<-|[<-|[]]]; vm_compute; lia.
+    - destruct m; destruct He. }
+  split.
+  { intros x. do 4 (destruct x as [|x]; [cbn; lia|]). cbn. lia. }
+  vm_compute. repeat split; try reflexivity; discriminate.
 Qed.
 
 (* the dangling-index discrepancy in the model: 'ab,bc->c' (a=2,b=3,c=5), unbounded cap *)
